@@ -29,6 +29,13 @@ def main(path):
     except Violation as v:
         print("REPRODUCED: %s: %s" % (v.key, v.msg))
         return 1
+    except Exception as e:  # noqa: BLE001
+        from sx.inputs import origin
+
+        if origin(e) == "escaped" and body["key"].startswith("escaped:"):
+            print("REPRODUCED: escaped:%s: %s" % (type(e).__name__, str(e)[:300]))
+            return 1
+        raise
     print("no violation; outcome:", out)
     return 0
 
